@@ -888,17 +888,26 @@ func (x *Exec) evalMethodCall(ce *CEnv, recv *Val, name string, argEs []Expr) *V
 	// concrete method
 	ms := x.prog.SSA.MethodSets.MethodSet(t)
 	selc := ms.Lookup(nil, name)
+	var lpkg *types.Package
+	if pkg := x.pkgOf(ce); pkg != nil {
+		lpkg = pkg.Pkg
+	}
+	if nt, ok := t.(*types.Named); ok && nt.Obj().Pkg() != nil {
+		lpkg = nt.Obj().Pkg()
+	} else if pt, ok := t.(*types.Pointer); ok {
+		if nt, ok := pt.Elem().(*types.Named); ok && nt.Obj().Pkg() != nil {
+			lpkg = nt.Obj().Pkg()
+		}
+	}
+	if selc == nil && lpkg != nil {
+		selc = ms.Lookup(lpkg, name)
+	}
 	if selc == nil {
 		if _, isPtr := t.Underlying().(*types.Pointer); !isPtr {
 			ms = x.prog.SSA.MethodSets.MethodSet(types.NewPointer(t))
 			selc = ms.Lookup(nil, name)
-		}
-		if selc == nil {
-			if pkg := x.pkgOf(ce); pkg != nil {
-				selc = ms.Lookup(pkg.Pkg, name)
-				if selc == nil {
-					selc = x.prog.SSA.MethodSets.MethodSet(t).Lookup(pkg.Pkg, name)
-				}
+			if selc == nil && lpkg != nil {
+				selc = ms.Lookup(lpkg, name)
 			}
 		}
 	}
@@ -1115,7 +1124,7 @@ func (x *Exec) evalBuiltinSpec(ce *CEnv, name string, args []Expr) (*Val, bool) 
 	case "sqrt":
 		v := x.coerce(x.eval(ce, args[0]), float64T)
 		return &Val{Typ: float64T, T: x.mathSqrt(ce.guard, v.T)}, true
-	case "visited":
+	case "visited", "visitcount":
 		// visited(k): key k has already been yielded by the map iteration of the current loop
 		if ce.loop == nil {
 			cfail("visited() is only meaningful in the invariant of a loop that ranges over a map")
@@ -1136,6 +1145,11 @@ func (x *Exec) evalBuiltinSpec(ce *CEnv, name string, args []Expr) (*Val, bool) 
 			cfail("visited(): the current loop does not range over a map")
 		}
 		mt := rng.X.Type().Underlying().(*types.Map)
+		if name == "visitcount" {
+			vk := x.visitKey(rng, mt)
+			x.heapSorts[vk+"_n"] = "Int"
+			return &Val{Typ: intT, T: x.getHeap(ce.st, vk+"_n")}, true
+		}
 		k := x.coerce(x.eval(ce, args[0]), mt.Key())
 		return &Val{Typ: boolT, T: x.sel(x.getHeap(ce.st, x.visitKey(rng, mt)), x.asTerm(k), "Bool")}, true
 	case "pow2":
@@ -1340,7 +1354,23 @@ func (x *Exec) evalQuant(ce *CEnv, kind string, args []Expr) *Val {
 		body := x.eval(ce.withBound(id.Name, &Val{Typ: t, T: bv}), args[1])
 		return &Val{Typ: boolT, T: x.b.Quant(kind, []*smt.Term{bv}, body.T)}
 	}
-	cfail("%s needs (i, lo, hi, body) or (T(v), body)", kind)
+	if len(args) == 3 {
+		// forall(v, "type", body): quantification over a type given as a string
+		id, ok := args[0].(*EIdent)
+		ts, ok2 := args[1].(*EString)
+		if !ok || !ok2 {
+			cfail("%s(v, \"type\", body) expected", kind)
+		}
+		t := x.prog.resolveType(x.pkgOf(ce), ts.V)
+		if t == nil {
+			cfail("cannot resolve type %s", ts.V)
+		}
+		x.qseq++
+		bv := x.b.BoundVar(fmt.Sprintf("%s!q%d", id.Name, x.qseq), x.so.SortOf(t))
+		body := x.eval(ce.withBound(id.Name, &Val{Typ: t, T: bv}), args[2])
+		return &Val{Typ: boolT, T: x.b.Quant(kind, []*smt.Term{bv}, body.T)}
+	}
+	cfail("%s needs (i, lo, hi, body), (T(v), body) or (v, \"T\", body)", kind)
 	return nil
 }
 
